@@ -258,7 +258,9 @@ def parse_svd(text):
         for r in p.find("registers"):
             regs.append((r.find("name").text, base + int(r.find("addressOffset").text, 16)))
         size = int(p.find("addressBlock").find("size").text, 16)
-        out[p.find("name").text] = {"base": base, "regs": regs, "size": size}
+        irq = p.find("interrupt")
+        out[p.find("name").text] = {"base": base, "regs": regs, "size": size,
+                                    "irq": None if irq is None else int(irq.find("value").text)}
     mems = {}
     ve = root.find("vendorExtensions")
     mr = ve.find("memoryRegions")
@@ -277,30 +279,67 @@ def parse_mem_header(text):
 
 
 def run_exports(b):
-    """Run the real exporters exactly as builder.py does."""
+    """Run the real export flow: `Builder._generate_includes` / `_generate_csr_map` write csr.h, mem.h, soc.h,
+    csr.json, csr.csv, csr.svd into a scratch directory exactly as a build does; the files are read back."""
+    from litex.soc.integration.builder import Builder
+    import io, contextlib
     soc = b.soc
     ex = Built()
-    ex.json = json.loads(export.get_csr_json(soc.csr_regions, soc.constants, soc.mem_regions))
-    ex.csv = parse_csv(export.get_csr_csv(soc.csr_regions, soc.constants, soc.mem_regions))
-    ex.header_text = export.get_csr_header(regions=soc.csr_regions, constants=soc.constants,
-                                           csr_base=soc.mem_regions["csr"].origin,
-                                           with_access_functions=True, with_fields_access_functions=False)
+    d = tempfile.mkdtemp(prefix="c14_")
+    try:
+        with contextlib.redirect_stdout(io.StringIO()):
+            bld = Builder(soc, output_dir=d, compile_software=False, compile_gateware=False,
+                          csr_json=os.path.join(d, "csr.json"), csr_csv=os.path.join(d, "csr.csv"))
+            bld._generate_includes(with_bios=False)
+            bld._generate_csr_map()
+        gen = os.path.join(d, "software", "include", "generated")
+        ex.json = json.load(open(os.path.join(d, "csr.json")))
+        ex.csv = parse_csv(open(os.path.join(d, "csr.csv")).read())
+        ex.header_text = open(os.path.join(gen, "csr.h")).read()
+        ex.mem_header = parse_mem_header(open(os.path.join(gen, "mem.h")).read())
+        ex.soc_header = open(os.path.join(gen, "soc.h")).read()
+        envshim.quiet_stderr()
+        try:
+            with contextlib.redirect_stdout(io.StringIO()):
+                bld.csr_svd = os.path.join(d, "csr.svd")
+                bld.csr_json = bld.csr_csv = None
+                bld._generate_csr_map()
+            ex.svd, ex.svd_mems, ex.svd_consts = parse_svd(open(os.path.join(d, "csr.svd")).read())
+            ex.svd_error = None
+        except Exception as e:  # the SVD exporter crashing is itself reported by the caller
+            ex.svd, ex.svd_mems, ex.svd_consts, ex.svd_error = None, None, None, repr(e)
+    finally:
+        shutil.rmtree(d, ignore_errors=True)
     ex.header = CHeader(ex.header_text)
     ex.header_fields_text = export.get_csr_header(regions=soc.csr_regions, constants=soc.constants,
                                                   csr_base=soc.mem_regions["csr"].origin,
                                                   with_access_functions=True, with_fields_access_functions=True)
-    ex.mem_header = parse_mem_header(export.get_mem_header(soc.mem_regions))
-    ex.soc_header = export.get_soc_header(soc.constants)
+    ex.fields = parse_field_functions(ex.header_fields_text)
     ex.linker = export.get_linker_regions(soc.mem_regions)
-    try:
-        import io, contextlib
-        with contextlib.redirect_stdout(io.StringIO()):
-            svd_text = export.get_csr_svd(soc)
-        ex.svd, ex.svd_mems, ex.svd_consts = parse_svd(svd_text)
-        ex.svd_error = None
-    except Exception as e:  # the SVD exporter crashing is itself reported by the caller
-        ex.svd, ex.svd_mems, ex.svd_consts, ex.svd_error = None, None, None, repr(e)
     return ex
+
+
+def parse_field_functions(text):
+    """`<field>_extract` / `<field>_replace` of csr.h (with_fields_access_functions) -> {name: (offset, mask)}; the two
+    functions must use the same mask/offset and the statement forms evaluated by `field_extract/field_replace`."""
+    out = {}
+    for m in re.finditer(r"static inline uint32_t (\w+)_extract\(uint32_t oldword\) \{\n\tuint32_t mask = (0x[0-9a-f]+);\n"
+                         r"\treturn \(\(oldword >> (\d+)\) & mask\);\n\}", text):
+        out[m.group(1)] = {"offset": int(m.group(3)), "mask": int(m.group(2), 16), "replace": None}
+    for m in re.finditer(r"static inline uint32_t (\w+)_replace\(uint32_t oldword, uint32_t plain_value\) \{\n\tuint32_t mask = (0x[0-9a-f]+);\n"
+                         r"\treturn \(oldword & \(~\(mask << (\d+)\)\)\) \| \(\(mask & plain_value\) << (\d+)\);\n\}", text):
+        if m.group(1) in out:
+            out[m.group(1)]["replace"] = (int(m.group(2), 16), int(m.group(3)), int(m.group(4)))
+    return out
+
+
+def field_extract(f, word):
+    return ((word & M32) >> f["offset"]) & f["mask"]
+
+
+def field_replace(f, old, x):
+    mask, o1, o2 = f["replace"]
+    return ((old & ~(mask << o1)) | ((mask & x) << o2)) & M32
 
 
 # ------------------------------------------------------------------------------------------------------------
@@ -839,6 +878,24 @@ def check_soc(cfg, seed=0, max_regs=None):
                 rec["lean"].append(("hwwrite %d %d %d %d %d %d 0 %s" % (big, r.atomic, bw, r.size, old, back,
                                                                         " ".join(str(x) for _, x in stores)), str(got)))
             count("writes")
+            if hasattr(r.obj, "fields") and r.size <= 32:
+                word = tb.get(r.obj.storage)
+                for f in r.obj.fields.fields:
+                    ff = ex.fields.get("%s_%s_%s" % (R.name, r.name.lower(), f.name.lower()))
+                    if ff is None or ff["replace"] is None:
+                        alarm("csr.h lacks field accessors of %s.%s" % (r.full, f.name))
+                        continue
+                    sig = tb.get(getattr(r.obj.fields, f.name))
+                    if field_extract(ff, word) != sig and not f.pulse:   # a pulse field is only valid in the strobe cycle
+                        alarm("%s_%s_extract(0x%x) = 0x%x, the field signal holds 0x%x" % (r.full, f.name, word,
+                                                                                         field_extract(ff, word), sig), R_CSR8)
+                    x = rng.getrandbits(32)
+                    nwd = field_replace(ff, word, x)
+                    keep = ~(((1 << f.size) - 1) << f.offset) & M32
+                    if field_extract(ff, nwd) != x & ((1 << f.size) - 1) or (nwd & keep) != (word & keep):
+                        alarm("%s_%s_replace(0x%x, 0x%x) = 0x%x" % (r.full, f.name, word, x, nwd))
+                    rec["lean"].append(("fieldextract %d %d %d" % (f.offset, f.size, word), str(field_extract(ff, word))))
+                    count("field_checks")
             if len(rec["samples"]) < 2 and nw > 1:
                 rec["samples"].append({"reg": r.full, "size": r.size, "stores": [(hex(a), hex(x)) for a, x in stores],
                                        "storage_after": hex(got)})
@@ -1028,7 +1085,10 @@ def gen_cfg(rng, **fixed):
     }
     cfg.update(fixed)
     size = 4 << cfg["csr_aw"]
-    cfg.setdefault("csr_origin", rng.choice((0, 0xf0000000, 0x82000000, size * rng.randint(1, 200))))
+    if "bus_aw" not in cfg and rng.random() < 0.15:
+        cfg["bus_aw"] = 64
+    cfg.setdefault("csr_origin", rng.choice((0, 0xf0000000, 0x82000000, size * rng.randint(1, 200))
+                                            + ((0x200000000, 0x1f00000000) if cfg.get("bus_aw") == 64 else ())))
     nlocs = size // cfg["paging"]
     periphs, used = [], set()
     deck = list(ARCHETYPES)
@@ -1153,3 +1213,214 @@ def export_case(rng):
     line = "export %d %d 32 %d %d ; %s" % (csr_base, paging, bw, csr_base, " ; ".join(banks))
     real = "J %s # H %s" % (" | ".join(jj), " | ".join(hh))
     return {"line": line, "real": real, "alarm": alarm, "input": {"kind": "export", "line": line}}
+
+
+# ------------------------------------------------------------------------------------------------------------
+# exhaustive decode sweep of a real CSRBankArray (no SoC around it): every CSR-bus address, every simple CSR
+
+def sweep_case(args):
+    """Build a real `CSRBankArray` + `Interconnect` for a random bank set with a small address width and drive
+    EVERY CSR-bus address: the set of strobed simple CSRs per address is returned in the Lean `sweep` format."""
+    seed, = args
+    rng = random.Random(seed)
+    from litex.soc.interconnect import csr_bus
+    from migen import Module
+    bw = rng.choice((8, 32, 32))
+    aw = rng.choice((9, 10, 11))
+    paging = rng.choice((0x100, 0x200, 0x400)) if aw < 11 else rng.choice((0x400, 0x800))
+    npages = (1 << aw) // (paging // 4)
+    pages = rng.sample(range(npages), min(npages, rng.randint(1, 3)))
+    if rng.random() < 0.3:
+        pages[0] = npages - 1 if (npages - 1) not in pages else pages[0]
+    src = LiteXModule()
+    banks = []
+    loc = {}
+    for k, page in enumerate(pages):
+        p = gen_periph(rng, "p%d" % k, bw, max_regs=5)
+        p.pop("mems", None)
+        for r in p["regs"]:
+            r.pop("n", None)
+        setattr(src, p["name"], make_periph(p))
+        loc[p["name"]] = page
+        banks.append((page, [r["size"] for r in p["regs"]]))
+    ba = csr_bus.CSRBankArray(src, address_map=lambda name, mem: loc[name], data_width=bw, address_width=aw,
+                              paging=paging, ordering=rng.choice(("big", "little")))
+    master = csr_bus.Interface(data_width=bw, address_width=aw)
+    top = Module()
+    top.submodules += src, ba, csr_bus.Interconnect(master, ba.get_buses())
+    nl = Netlist(top)
+    order = {name: k for k, (name, _, _, _) in enumerate(ba.banks)}
+    # the Lean bank list follows the order of `ba.banks` (xdir order)
+    blist = []
+    simple = []
+    for name, csrs, mapaddr, rmap in ba.banks:
+        blist.append(" ".join([str(mapaddr)] + [str(c.size) for c in csrs]))
+        for i, c in enumerate(rmap.simple_csrs):
+            simple.append((order[name], i, c.re, c.we))
+    out = []
+    nl.set(master.we, 1)
+    nl.set(master.re, 1)
+    for adr in range(1 << aw):
+        nl.set(master.adr, adr)
+        nl.settle()
+        ev = nl.ev
+        for b_, i, re_, we_ in simple:
+            w, r = ev.eval(re_), ev.eval(we_)
+            if w or r:
+                if not (w and r):
+                    out.append("%d:%d:%d:half" % (adr, b_, i))
+                else:
+                    out.append("%d:%d:%d" % (adr, b_, i))
+    line = "sweep %d %d %d ; %s" % (bw, aw, paging, " ; ".join(blist))
+    return {"line": line, "real": " ".join(out) or "-", "addresses": 1 << aw, "simple": len(simple),
+            "input": {"kind": "sweep", "seed": seed}}
+
+
+# ------------------------------------------------------------------------------------------------------------
+# build verdicts: what the SoC refuses (page >= n_locs, page used twice, bank larger than its page)
+
+def verdict_case(args):
+    seed, = args
+    rng = random.Random(seed)
+    aw = rng.choice((14, 15))
+    paging = rng.choice((0x400, 0x800, 0x1000))
+    nlocs = (4 << aw) // paging
+    cfg = dict(bus="wishbone", bus_dw=32, csr_dw=rng.choice((32, 32, 8)), paging=paging, ordering="big", csr_aw=aw,
+               with_ctrl=False, ic="shared", rams=[])
+    periphs, banks = [], []
+    for k in range(rng.randint(1, 3)):
+        p = gen_periph(rng, "p%d" % k, cfg["csr_dw"], max_regs=3)
+        p.pop("mems", None)
+        for r in p["regs"]:
+            r.pop("n", None)
+        mode = rng.random()
+        p["loc"] = rng.choice((nlocs, nlocs - 1, nlocs + 1, rng.randrange(nlocs))) if mode < 0.35 else rng.randrange(min(nlocs, 6))
+        if rng.random() < 0.25:
+            # a bank around the page capacity: one wide register
+            words = paging // 4 + rng.choice((-1, 0, 0, 1, 2)) - sum(nwords(cfg["csr_dw"], r["size"]) for r in p["regs"])
+            if words > 0:
+                p["regs"].append({"kind": "status", "name": "big", "size": words * cfg["csr_dw"] - rng.randrange(cfg["csr_dw"])})
+        periphs.append(p)
+        banks.append(" ".join([str(p["loc"])] + [str(r["size"]) for r in p["regs"]]))
+    cfg["periphs"] = periphs
+    b, verdict = safe_build(cfg)
+    line = "accepts 32 %d %d %d ; %s" % (aw, paging, cfg["csr_dw"], " ; ".join(banks))
+    return {"line": line, "real": verdict, "input": {"kind": "verdict", "cfg": cfg}}
+
+
+# ------------------------------------------------------------------------------------------------------------
+# interrupt numbers: a SoCCore around a stub CPU (harness side) whose `interrupt` lines are observed
+
+def _stub_cpu_cls():
+    from litex.soc.cores import cpu as cpu_mod
+
+    class C14StubCPU(cpu_mod.CPU):
+        category, family, name, human_name = "softcore", "stub", "c14stub", "C14 stub"
+        variants = ["standard"]
+        data_width, endianness = 32, "little"
+        gcc_triple, gcc_flags, linker_output_format, nop = "none", "", "elf32-little", "nop"
+        io_regions = {0x8000_0000: 0x8000_0000}
+
+        def __init__(self, platform, variant="standard"):
+            self.platform, self.variant = platform, variant
+            self.reset = Signal()
+            self.interrupt = Signal(32)
+            self.dbus = wishbone.Interface(data_width=32, address_width=32, addressing="word")
+            self.periph_buses = [self.dbus]
+            self.memory_buses = []
+
+        def set_reset_address(self, reset_address):
+            self.reset_address = reset_address
+    cpu_mod.CPUS["c14stub"] = C14StubCPU
+    return C14StubCPU
+
+
+def irq_case(args):
+    """SoCCore(cpu=stub with 32 interrupt lines, timer0) + peripherals with an EventManager at random / automatic IRQ
+    locations.  Oracle: the exported `<NAME>_INTERRUPT` (soc.h, JSON, CSV, SVD) is the index of the one CPU interrupt
+    line that rises when that peripheral's event fires (enabled through the exported `ev_enable` address)."""
+    from litex.soc.integration.soc_core import SoCCore
+    from litex.soc.interconnect.csr_eventmanager import EventManager, EventSourceLevel
+    seed, = args
+    rng = random.Random(seed)
+    _stub_cpu_cls()
+    alarms, stats = [], {}
+    envshim.quiet_stderr()
+    plat = SimPlatform("SIM", _IO)
+    with_timer = rng.random() < 0.6
+    soc = SoCCore(plat, clk_freq=int(1e6), cpu_type="c14stub", integrated_rom_size=0x100, integrated_sram_size=0,
+                  with_uart=False, with_timer=with_timer, csr_paging=rng.choice((0x400, 0x800, 0x1000)),
+                  bus_interconnect=rng.choice(("shared", "crossbar")))
+    names, fixed = [], {}
+    used = set()
+    for k in range(rng.randint(1, 4)):
+        m = LiteXModule()
+        m.ev = EventManager()
+        m.ev.src = EventSourceLevel(name="src")
+        m.ev.finalize()
+        name = "q%d" % k
+        setattr(soc, name, m)
+        if rng.random() < 0.5:
+            n = rng.choice((31, rng.randrange(32), rng.randrange(32)))
+            if n not in used and not (with_timer and n == 0 and False):
+                try:
+                    soc.irq.add(name, n)
+                    fixed[name] = n
+                    used.add(n)
+                except SoCError:
+                    envshim.quiet_stderr()
+                    soc.irq.add(name, use_loc_if_exists=True)
+            else:
+                soc.irq.add(name, use_loc_if_exists=True)
+        else:
+            soc.irq.add(name, use_loc_if_exists=True)
+        used.add(soc.irq.locs[name])
+        names.append(name)
+    b = Built()
+    b.cfg = {"bus": "wishbone", "bus_dw": 32, "csr_dw": 32, "paging": soc.csr.paging}
+    b.soc, b.master, b.periphs, b.rams = soc, soc.cpu.dbus, {}, {}
+    soc.finalize()
+    envshim.quiet_stderr()
+    ex = run_exports(b)
+    tb = Tb(b)
+    irqs = dict(soc.irq.locs)
+    for name, loc in irqs.items():
+        c = name.upper() + "_INTERRUPT"
+        if soc.constants.get(c) != loc or ex.json["constants"].get(c.lower()) != loc or \
+                ("#define %s %d\n" % (c, loc)) not in ex.soc_header or ex.csv["constant"].get(c.lower()) != str(loc):
+            alarms.append("%s: soc %r json %r csv %r (IRQ location %d)" % (c, soc.constants.get(c), ex.json["constants"].get(c.lower()),
+                                                                       ex.csv["constant"].get(c.lower()), loc))
+        if name in fixed and fixed[name] != loc:
+            alarms.append("%s requested IRQ %d, got %d" % (name, fixed[name], loc))
+    if ex.svd is None:
+        alarms.append("SVD export crashed: %s" % ex.svd_error)
+    else:
+        for name, loc in irqs.items():
+            if ex.svd.get(name.upper(), {}).get("irq") != loc:
+                alarms.append("SVD interrupt of %s: %r, IRQ location %d" % (name, ex.svd.get(name.upper(), {}).get("irq"), loc))
+    if ex.json["constants"].get("config_cpu_interrupts") != max(irqs.values()) + 1:
+        alarms.append("CONFIG_CPU_INTERRUPTS")
+    for name in names:
+        loc = irqs[name]
+        mod = getattr(soc, name)
+        reg = name + "_ev_enable"
+        if reg not in ex.header.writers:
+            alarms.append("no exported accessor for " + reg)
+            continue
+        ex.header.write(reg, 1, lambda a, x: tb.store32(a, x))
+        before = tb.get(soc.cpu.interrupt)
+        tb.set_reg(mod.ev.src.trigger, 1)
+        tb.nl.tick()
+        got = tb.get(soc.cpu.interrupt)
+        if got != before | (1 << loc) or before & (1 << loc):
+            alarms.append("%s_INTERRUPT = %d but firing the event takes cpu.interrupt from 0x%x to 0x%x" % (name.upper(), loc, before, got))
+        pend = ex.header.read(name + "_ev_pending", lambda a: tb.load32(a)[0])
+        if pend != 1:
+            alarms.append("%s_ev_pending reads %r while the event is asserted" % (name, pend))
+        tb.set_reg(mod.ev.src.trigger, 0)
+        ex.header.write(reg, 0, lambda a, x: tb.store32(a, x))
+        tb.nl.tick()
+        if tb.get(soc.cpu.interrupt) & (1 << loc):
+            alarms.append("%s: interrupt line %d stays high after disable" % (name, loc))
+        stats["irq_lines"] = stats.get("irq_lines", 0) + 1
+    return {"alarms": alarms, "stats": stats, "irqs": irqs, "input": {"kind": "irq", "seed": seed}}
